@@ -17,10 +17,11 @@ using namespace BaseGraph;
 static E1Config makeCfg(const std::string &prop, Family fam, bool directed, bool labelled, const std::string &variant, const std::string &name, const std::string &tier) {
     E1Config c;
     c.name = name + "/" + variant;
-    bool small = variant == "n2" || variant == "n2x";
+    bool small = variant == "n2" || variant == "n2x" || variant == "n2odd";
     // ---- bounds
     if (variant == "n2") { c.startSizes = {0, 1, 2}; c.maxN = 2; c.maxDepth = -1; c.completeKey = true; }
     else if (variant == "n2x") { c.startSizes = {0, 1, 2}; c.maxN = 2; c.maxDepth = -1; c.completeKey = true; alphaVariant() = 1; if (fam == WEIGHTED) weightScale() = 0x1p999; } // unusual values
+    else if (variant == "n2odd") { c.startSizes = {1, 2}; c.maxN = 2; c.maxDepth = -1; c.completeKey = true; weightTable() = {0.1, 0.7, 1000000.3}; } // sums depend on the order of summation
     else if (variant == "n2dedup") { c.startSizes = {1, 2}; c.maxN = 2; c.maxDepth = -1; c.completeKey = true; }
     else if (variant == "n1s4") { c.startSizes = {0, 1}; c.maxN = 1; c.maxDepth = -1; c.completeKey = true; }
     else if (variant == "big") { c.startSizes = {}; c.bigSizes = {5, 6}; c.maxN = 6; c.maxDepth = 2; c.completeKey = false; }
@@ -43,6 +44,8 @@ static E1Config makeCfg(const std::string &prop, Family fam, bool directed, bool
     } else if (fam == MULTI && variant == "n2x") {
         c.addValues = {1, 65536, 3000000000L}; c.setValues = {0, 65536, 3000000000L}; c.removeMultiValues = {1, 65536, 3000000000L}; c.maxValue = 4000000000L;
         c.allowedValues = {1, 65536, 65537, 3000000000L, 3000000001L, 3000065536L};
+    } else if (fam == WEIGHTED && variant == "n2odd") {
+        c.addValues = {0, 1, 2}; c.setValues = c.addValues;
     } else if (fam == WEIGHTED && variant == "n2x") {
         c.addValues = {-2, 0, 2, 3}; c.setValues = c.addValues; // x 2^999: every partial sum is a small multiple of 2^999, hence exact
     } else if (fam == MULTI) {
